@@ -114,6 +114,12 @@ def gen_case(rng):
                    np.array([float(rng.randint(0 if ignore else 1, 50))
                              for _ in range(size)])] for _ in range(nds)]
         specials.add('integer-' + dtype)
+    same = None
+    if rng.random() < 0.06:
+        # the reference compared with itself (the same object)
+        same = rng.randrange(nds)
+        others[same] = [ref_v.copy(), ref_e.copy()]
+        specials.add('same-object')
     # memory layout of the arrays handed to the datasets (same logical
     # content): C order, Fortran order, transposed view
     layout = [rng.choice(['C', 'C', 'F', 'T']) for _ in range(nds + 1)] \
@@ -121,7 +127,7 @@ def gen_case(rng):
     return {'shape': shp, 'alpha': alpha, 'ignore': ignore, 'ref': [ref_v,
                                                                     ref_e],
             'others': others, 'specials': sorted(specials), 'dtype': dtype,
-            'layout': layout}
+            'layout': layout, 'same': same}
 
 
 def build(cas, perm=None):
@@ -150,8 +156,12 @@ def build(cas, perm=None):
         else:
             val, err = relayout(val, how), relayout(err, how)
         return Dataset(val, err, name=name)
-    return TestChi2(mkds(*cas['ref'], 'ref', layouts[0]),
-                    *[mkds(o_v, o_e, f'd{k}', layouts[k + 1])
+    ref = mkds(*cas['ref'], 'ref', layouts[0])
+    # `same`: this compared dataset is the reference *object* itself (its
+    # numbers are those of the reference)
+    return TestChi2(ref,
+                    *[ref if k == cas.get('same') and perm is None
+                      else mkds(o_v, o_e, f'd{k}', layouts[k + 1])
                       for k, (o_v, o_e) in enumerate(cas['others'])],
                     name='c', alpha=cas['alpha'], ignore_empty=cas['ignore'])
 
